@@ -763,7 +763,7 @@ fn run_binom(cfg: &Cfg, rep: &mut Report) {
         rep.inconclusive("binomial oracles disagree (Pascal table vs multiplicative u128)".into());
     }
     rep.exhaustive = Some(!cfg.lite);
-    rep.sample(|| json!({"fn": "binom_coeff", "n": 67, "k": 33, "value": binom_coeff(67, 33).to_string(), "expected": table[67][33].to_string()}));
+    rep.sample(|| json!({"fn": "binom_coeff", "n": 67, "k": 33, "value": match guard(|| binom_coeff(67, 33)) { Ok(v) => v.to_string(), Err(e) => format!("panic: {}", e) }, "expected": table[67][33].to_string()}));
     // larger n, k <= 32 (and the mirrored k), value below 2^64
     let n = cfg.pick(100_000, 2_000_000, 30);
     par_cases(cfg, rep, 5, n, |i, rng, rep| {
